@@ -227,3 +227,37 @@ def page_text(pdf_path):
     text = b' '.join(out).decode('latin1')
     text = text.replace('\\(', '(').replace('\\)', ')')
     return re.sub(r'\s+', ' ', text)
+
+
+def instruction_text(pdf_path):
+    """Text of a bundled official instruction booklet.  Its fonts are Identity-H subsets whose glyph ids are the ASCII code minus 29
+    (checked: the decoded text must contain ordinary English words, else '' is returned); strings are <hex> operands of Tj / TJ.
+    Used only to check that transcribed sentences and amounts occur verbatim in the official text bundled with the repository."""
+    import re
+    try:
+        with open(pdf_path, 'rb') as f:
+            data = f.read()
+    except OSError:
+        return ''
+    if not data:
+        return ''
+    out = []
+    for st in inflate_streams(data):
+        if not isinstance(st, (bytes, bytearray)) or b' Tf' not in st:
+            continue
+        for m in re.finditer(rb'<([0-9A-Fa-f]+)>\s*Tj|\[((?:[^\]])*)\]\s*TJ|\(((?:[^()\\]|\\.)*)\)\s*Tj|(ET)', st):
+            if m.group(4):
+                out.append(' ')
+                continue
+            if m.group(3) is not None:
+                out.append(m.group(3).decode('latin1'))
+                continue
+            hexes = [m.group(1)] if m.group(1) else re.findall(rb'<([0-9A-Fa-f]+)>', m.group(2))
+            for h in hexes:
+                h = h.decode()
+                for i in range(0, len(h) - 3, 4):
+                    c = int(h[i:i + 4], 16) + 29
+                    out.append(chr(c) if 32 <= c < 127 else '?')
+    text = re.sub(r'\s+', ' ', ''.join(out))
+    words = sum(text.count(w) for w in (' the ', ' and ', ' line ', ' your '))
+    return text if words >= 20 else ''
